@@ -459,7 +459,11 @@ class TermBuilder:
                 t = ('index', t, ('int', -e['cidx'] - 1 if e['from_end'] else e['cidx']))
                 continue
             if isinstance(e, dict) and 'sub_from' in e:
-                t = ('subslice', t, e['sub_from'], e['sub_to'], e['from_end'])
+                if e['sub_to'] == 0 and e['from_end']:
+                    # slice pattern `[a, b, rest @ ..]`: rest == x[k..]
+                    t = ('index', t, ('agg', 'core::ops::range::RangeFrom', '', (('int', e['sub_from']),), ('start',)))
+                else:
+                    t = ('subslice', t, e['sub_from'], e['sub_to'], e['from_end'])
                 continue
         if variant:
             t = ('variant', t, variant)
